@@ -1,7 +1,8 @@
 ------------------------------- MODULE Accept -------------------------------
 (***************************************************************************)
 (* Layer M for the accept phase with the auth checker (C16): a connection  *)
-(* is served (peer.ServeConn): status Preparing, the PostAccept hooks run  *)
+(* is served (peer.ServeConn, or the accept loop behind ListenAndServe --  *)
+(* cfg.path): status Preparing, the PostAccept hooks run                   *)
 (* in order -- an optional other hook, the checker (which reads exactly    *)
 (* one frame with PreReceive and answers with an AUTH_REPLY), an optional  *)
 (* other hook --; only if all succeed the session becomes Ok, is indexed   *)
@@ -19,7 +20,7 @@ CONSTANTS Export
 Firsts == {"authgood", "authbad", "authundecodable", "authstatus", "call", "push", "reply", "type9", "garbage", "truncated", "silence",
            "authpanic", "authsetidbad", "authsetidgood"}
 Cfgs == [first : Firsts, pipe : {"none", "call", "push", "callpush"}, timing : {"atonce", "stepwise"},
-         hookpos : {"none", "before", "after"}, hookverdict : {"ok", "reject"}]
+         hookpos : {"none", "before", "after"}, hookverdict : {"ok", "reject"}, path : {"serveconn", "listen"}]
 CfgOK(c) == (c.hookpos = "none" => c.hookverdict = "ok")
 
 VARIABLES cfg, pc, status, exchanged, authok, indexed, reader, handled, closed, replies
@@ -48,12 +49,21 @@ Hook2 ==  \* the other accept hook, when it is registered after the checker
   /\ IF cfg.hookpos = "after" /\ cfg.hookverdict = "reject"
        THEN Reject /\ UNCHANGED <<cfg, exchanged, authok, indexed, reader, handled, replies>>
        ELSE pc' = "serve" /\ UNCHANGED <<cfg, status, exchanged, authok, indexed, reader, handled, closed, replies>>
-Serve ==  \* status Ok, reader started, indexed
-  /\ pc = "serve" /\ status' = "Ok" /\ reader' = TRUE /\ indexed' = TRUE /\ pc' = "handle"
+\* the three steps that put an accepted session into service, in the order of the code path taken:
+\* ServeConn: status Ok, reader goroutine, index;  accept loop: index, status Ok, reader (in the accepting goroutine)
+Order == IF cfg.path = "listen" THEN <<"index", "ok", "reader">> ELSE <<"ok", "reader", "index">>
+Serve ==
+  /\ pc \in {"serve", "serve2", "serve3"}
+  /\ LET k == CASE pc = "serve" -> 1 [] pc = "serve2" -> 2 [] OTHER -> 3
+         what == Order[k]
+     IN /\ status' = (IF what = "ok" THEN "Ok" ELSE status)
+        /\ reader' = (reader \/ what = "reader")
+        /\ indexed' = (indexed \/ what = "index")
+        /\ pc' = (CASE k = 1 -> "serve2" [] k = 2 -> "serve3" [] OTHER -> "handle")
   /\ UNCHANGED <<cfg, exchanged, authok, handled, closed, replies>>
 NPipe == CASE cfg.pipe = "none" -> 0 [] cfg.pipe = "callpush" -> 2 [] OTHER -> 1
-Handle == \* the reader handles the pipelined frames
-  /\ pc = "handle" /\ handled < NPipe /\ handled' = handled + 1
+Handle == \* the reader handles the pipelined frames (it may run before ServeConn has indexed the session)
+  /\ reader /\ pc \in {"serve3", "handle"} /\ handled < NPipe /\ handled' = handled + 1
   /\ replies' = IF cfg.pipe = "call" \/ (cfg.pipe = "callpush" /\ handled = 0) THEN Append(replies, "reply") ELSE replies
   /\ UNCHANGED <<cfg, pc, status, exchanged, authok, indexed, reader, closed>>
 Finish == pc = "handle" /\ handled = NPipe /\ pc' = "end" /\ UNCHANGED <<cfg, status, exchanged, authok, indexed, reader, handled, closed, replies>>
@@ -69,7 +79,7 @@ RejectedIsClosed     == pc = "end" /\ ~(authok /\ status = "Ok") => closed /\ ~i
 
 Established(c) == c.first = "authgood" /\ ~(c.hookverdict = "reject")
 Emit == Export = "" \/ pc' # "end" \/
-  Serialize(ToJson([first |-> cfg.first, pipe |-> cfg.pipe, timing |-> cfg.timing, hookpos |-> cfg.hookpos, hookverdict |-> cfg.hookverdict,
+  Serialize(ToJson([path |-> cfg.path, first |-> cfg.first, pipe |-> cfg.pipe, timing |-> cfg.timing, hookpos |-> cfg.hookpos, hookverdict |-> cfg.hookverdict,
                     established |-> (status' = "Ok"), handled |-> handled', exchanged |-> exchanged', replies |-> replies']) \o "\n", Export,
             [format |-> "TXT", charset |-> "UTF-8", openOptions |-> <<"WRITE", "CREATE", "APPEND">>]).exitValue = 0
 =============================================================================
